@@ -2173,6 +2173,38 @@ func (a *smAn) explore(ctx smContext) (paths []*smPath, reach []string) {
 			}
 		}
 	}
+	// … and only for variables the loop never assigns (nor takes the address of)
+	if a.loop != nil {
+		ast.Inspect(a.loop, func(n ast.Node) bool {
+			drop := func(e ast.Expr) {
+				if id, ok := e.(*ast.Ident); ok {
+					if o := a.obj(id); o != nil {
+						delete(carried, o)
+					}
+				}
+			}
+			switch x := n.(type) {
+			case *ast.AssignStmt:
+				for _, l := range x.Lhs {
+					drop(l)
+				}
+			case *ast.IncDecStmt:
+				drop(x.X)
+			case *ast.UnaryExpr:
+				if x.Op == token.AND {
+					drop(x.X)
+				}
+			case *ast.RangeStmt:
+				if x.Key != nil {
+					drop(x.Key)
+				}
+				if x.Value != nil {
+					drop(x.Value)
+				}
+			}
+			return true
+		})
+	}
 	a.carried = carried
 	var work []string
 	for e := range entry {
